@@ -19,7 +19,8 @@ CONSTANTS MaxOps, Values
 LeafPaths == { <<"max_imfs">>, <<"newtop">>,
                <<"imf_opts", "sd_thresh">>, <<"imf_opts", "rilling_thresh">>, <<"imf_opts", "newkey">>,
                <<"extrema_opts", "pad_width">>,
-               <<"extrema_opts", "mag_pad_opts", "stat_length">>, <<"extrema_opts", "mag_pad_opts", "newkey">> }
+               <<"extrema_opts", "mag_pad_opts", "stat_length">>, <<"extrema_opts", "mag_pad_opts", "newkey">>,
+               <<"extrema_opts", "mag_pad_opts", "mode">> }     \* mode + stat_length are ALL the default entries of that group: it can be emptied
 GroupPaths == { <<"imf_opts">>, <<"extrema_opts">>, <<"extrema_opts", "mag_pad_opts">> }
 IsPrefix(g, p) == Len(g) <= Len(p) /\ SubSeq(p, 1, Len(g)) = g
 Absent == "absent"
@@ -90,7 +91,8 @@ W_TupleBecomesList == ~(\E p \in LeafPaths : store[p] = "List12" /\ \E k \in 1..
                          /\ \A j \in (k+1)..Len(hist) : hist[j][1] = "roundtrip")
 Json == INSTANCE Json
 Order == << <<"max_imfs">>, <<"newtop">>, <<"imf_opts", "sd_thresh">>, <<"imf_opts", "rilling_thresh">>, <<"imf_opts", "newkey">>,
-            <<"extrema_opts", "pad_width">>, <<"extrema_opts", "mag_pad_opts", "stat_length">>, <<"extrema_opts", "mag_pad_opts", "newkey">> >>
+            <<"extrema_opts", "pad_width">>, <<"extrema_opts", "mag_pad_opts", "stat_length">>, <<"extrema_opts", "mag_pad_opts", "newkey">>,
+            <<"extrema_opts", "mag_pad_opts", "mode">> >>
 Export == PrintT(<<"BEHAVIOUR", Json!ToJson([hist |-> hist, state |-> [i \in 1..Len(Order) |-> store[Order[i]]],
                                            groups |-> [g \in 1..3 |-> (<< <<"imf_opts">>, <<"extrema_opts">>, <<"extrema_opts", "mag_pad_opts">> >>)[g] \in groups],
                                            lastGet |-> lastGet, siftType |-> siftType,
